@@ -146,7 +146,7 @@ CORPUS = {
             "",
             "\n",
         ],
-        "same": ["requests\n{PKG}>=0.0.1\n", "{PKG}\n"],
+        "same": ["requests\n{PKG}>=0.0.1\n", "{PKG}\n", "requests\n{PKG}==0.0.1\t# pinned on purpose\nflask  # web\n"],
         "spelled": ["requests\n{ALT}\n"],
         "unwritable": [],
     },
